@@ -69,6 +69,22 @@ def run(c, chk):
     for name, kind in (('strtol', 'integer'), ('strtod', 'floating point')):
         ps = sites[name]
         if not ps:
+            # the conversion was replaced by a relative that does not yield "exactly that number" in the option's type
+            WRONG = {'strtod': {'strtold': 'the numeral is rounded to long double first and then narrowed to the option\'s double: rounded twice, a token just above '
+                                           'the midpoint of two doubles yields the lower one, and the range test is no longer strtod()\'s',
+                                'strtof': 'the numeral is rounded to float: only 24 bits of it reach the option\'s double',
+                                'atof': 'atof() reports neither trailing garbage nor a value out of range'},
+                     'strtol': {'atoi': 'atoi() reports neither trailing garbage nor a value out of range', 'atol': 'atol() reports neither trailing garbage nor a value out of range',
+                                'strtoul': 'strtoul() accepts a minus sign and wraps the value', 'strtoull': 'strtoull() accepts a minus sign and wraps the value'}}[name]
+            hit = None
+            for p in paths:
+                for e in p.events:
+                    if e.kind == 'call' and e.name in WRONG:
+                        hit = hit or e
+            if hit is not None:
+                chk.rule('R4.13', 'the conversion yields the number in the option\'s own type: text is converted by strtol() for a long and by strtod() for a double, not through a wider, narrower or unchecked relative')
+                chk.fail('R4.13', 'conversion-family:%s' % hit.name, c.where(hit.ins), 'cfg_setopt() converts %s values with %s(): %s' % (kind, hit.name, WRONG[hit.name]))
+                continue
             raise report.Broken('cfg_setopt() no longer converts %s values with %s(): the conversion site moved, the rule instances must be re-anchored' % (kind, name))
         r41 = r42 = r43 = r44 = r45 = True
         w = {}
